@@ -22,6 +22,7 @@ class Report:
         self.notes = []
         self.skipped = []          # rules not applicable in this configuration
         self.instances = {}        # rule -> count of matched real sites
+        self.broken = []           # rules that could not be evaluated (anchor / instances missing, internal error)
         self._seen = {}
 
     # -- recording ---------------------------------------------------------
@@ -75,6 +76,41 @@ class Report:
         self.notes.append(s)
 
 
+def _guard(fn):
+    """A rule that cannot be evaluated (vanished anchor, too few instances, internal error on code it does not
+    understand) must not keep the other rules of the property from being evaluated: the failure is recorded on the
+    report and decided at the end (violations found elsewhere are reported; otherwise the check is ANALYSIS-BROKEN)."""
+    if getattr(fn, "_guarded", False):
+        return fn
+
+    def w(P, rep, *a, **kw):
+        try:
+            return fn(P, rep, *a, **kw)
+        except AnalysisBroken as e:
+            rep.broken.append(str(e))
+        except Exception as e:     # noqa: BLE001 -- any crash of a rule on unfamiliar code
+            tb = traceback.extract_tb(sys.exc_info()[2])
+            where = "%s:%d" % (os.path.basename(tb[-1].filename), tb[-1].lineno) if tb else "?"
+            rep.broken.append("internal error in %s (%s at %s)" % (fn.__name__, repr(e)[:120], where))
+    w._guarded = True
+    w.__name__ = getattr(fn, "__name__", "rule")
+    w.__doc__ = getattr(fn, "__doc__", None)
+    return w
+
+
+def _guard_rules():
+    for pid in PROPS:
+        importlib.import_module("rules." + pid)
+    for name, m in list(sys.modules.items()):
+        if not name.startswith("rules.") or m is None:
+            continue
+        for attr in dir(m):
+            if attr.startswith("rule_") or attr.startswith("rules_asm"):
+                f = getattr(m, attr)
+                if callable(f) and getattr(f, "__module__", "").startswith("rules."):
+                    setattr(m, attr, _guard(f))
+
+
 def load_known():
     p = os.path.join(VERIF, "known_findings.json")
     if not os.path.exists(p):
@@ -86,6 +122,7 @@ def run_property(prop, tier, repo=None, variants=None, verbose=True, replay=None
     t0 = time.time()
     repo = repo or build.REPO
     mod = importlib.import_module("rules." + prop)
+    _guard_rules()
     if variants is None:
         # QUICK_VARIANTS: configurations whose code the default build compiles out although the property
         # is mostly about that code (e.g. the fallback execution-stream barrier)
@@ -103,12 +140,13 @@ def run_property(prop, tier, repo=None, variants=None, verbose=True, replay=None
         try:
             mod.run(P, rep, tier)
         except AnalysisBroken as e:
-            # a rule lost its instances *after* an obligation had already failed: the failed obligation is a
-            # finding about the code in its own right and is reported; without one the analysis is broken
+            rep.broken.append(str(e))
+        if rep.broken:
             if not rep.violations:
-                raise
-            rep.note("analysis stopped early: %s" % e)
-            print("note: %s (violations found before that point are reported)" % e)
+                raise AnalysisBroken("; ".join(rep.broken)[:1500])
+            for b in rep.broken:
+                rep.note("rule not evaluated: %s" % b)
+                print("note: rule not evaluated: %s (violations found by other rules are reported)" % b[:300])
         reports.append(rep)
         stats[v] = P.stats()
         if repo != build.REPO and not os.environ.get("VERIF_KEEP_CACHE"):
